@@ -67,6 +67,7 @@ fn new_node<'gc>(mc: &Mutation<'gc>, gid: u32) -> NodeGc<'gc> {
                 _tok: Tok(gid),
                 s: [Lock::new(None), Lock::new(None)],
                 w: Lock::new(None),
+                dw: Box::new(WSlot(Lock::new(None))),
                 leaf: Lock::new(None),
                 wl: Lock::new(None),
                 cell: Lock::new(None),
@@ -75,6 +76,17 @@ fn new_node<'gc>(mc: &Mutation<'gc>, gid: u32) -> NodeGc<'gc> {
     });
     talloc::register_gc(Gc::as_ptr(g) as usize, gid);
     g
+}
+
+/// Store into the node's weak slot after the sanctioned write barrier on the node.
+fn set_weak<'gc>(mc: &Mutation<'gc>, p: NodeGc<'gc>, v: Option<GcWeak<'gc, Node<'gc>>>) {
+    if DYNWEAK.with(|d| d.get()) {
+        // (no safe projection through a trait method: barrier first, then the raw cell)
+        let _ = Gc::write(mc, p);
+        unsafe { p.dw.cell().as_cell().set(v) };
+    } else {
+        unlock!(Gc::write(mc, p), Node, w).set(v);
+    }
 }
 
 fn link<'gc>(mc: &Mutation<'gc>, p: NodeGc<'gc>, s: u8, c: Option<NodeGc<'gc>>) {
@@ -99,7 +111,7 @@ fn adopt_weak<'gc>(mc: &Mutation<'gc>, path: u8, p: NodeGc<'gc>, w: GcWeak<'gc, 
         7 => mc.forward_barrier_weak(None, GcWeak::erase(w)),
         _ => unreachable!(),
     }
-    unsafe { p.w.as_cell().set(Some(w)) };
+    unsafe { p.wcell().as_cell().set(Some(w)) };
 }
 
 fn barrier_only<'gc>(mc: &Mutation<'gc>, path: u8, p: NodeGc<'gc>, c: NodeGc<'gc>) {
@@ -315,14 +327,14 @@ impl World {
             }
             K::SetWeak => {
                 self.with_mutate(|w, mc, _, m| {
-                    unlock!(Gc::write(mc, w.node(m, op.a)), Node, w).set(Some(Gc::downgrade(w.node(m, op.b))));
+                    set_weak(mc, w.node(m, op.a), Some(Gc::downgrade(w.node(m, op.b))));
                     Ok(())
                 })?;
                 self.sh.objs[op.a as usize].w = Some(op.b);
             }
             K::ClearWeak => {
                 self.with_mutate(|w, mc, _, m| {
-                    unlock!(Gc::write(mc, w.node(m, op.a)), Node, w).set(None);
+                    set_weak(mc, w.node(m, op.a), None);
                     Ok(())
                 })?;
                 self.sh.objs[op.a as usize].w = None;
@@ -334,14 +346,14 @@ impl World {
                 let treach = self.sh.reach_mask()[t as usize];
                 let mut cell_ok = true;
                 let ok = match op.k {
-                    K::UpStore => self.with_mutate(|w, mc, _, m| match w.node(m, op.a).w.get().unwrap().upgrade(mc) {
+                    K::UpStore => self.with_mutate(|w, mc, _, m| match w.node(m, op.a).wk().unwrap().upgrade(mc) {
                         Some(g) => {
                             link(mc, w.node(m, op.b), op.c, Some(g));
                             Ok(true)
                         }
                         None => Ok(false),
                     })?,
-                    K::UpRoot => self.with_root(0, |w, mc, root, m| match w.node(m, op.a).w.get().unwrap().upgrade(mc) {
+                    K::UpRoot => self.with_root(0, |w, mc, root, m| match w.node(m, op.a).wk().unwrap().upgrade(mc) {
                         Some(g) => {
                             root.r[op.b as usize] = Some(g);
                             Ok(true)
@@ -350,7 +362,7 @@ impl World {
                     })?,
                     _ => {
                         let cid = self.sh.objs[op.b as usize].cell.expect("cell");
-                        let r = self.with_mutate(|w, mc, _, m| match w.node(m, op.a).w.get().unwrap().upgrade(mc) {
+                        let r = self.with_mutate(|w, mc, _, m| match w.node(m, op.a).wk().unwrap().upgrade(mc) {
                             Some(g) => Ok(Some(cell_set(mc, m[cid as usize].unwrap().cell(), Some(g)))),
                             None => Ok(None),
                         })?;
@@ -432,7 +444,7 @@ impl World {
                 if credit_path(op.a) {
                     self.credit_calls += 1;
                 }
-                let ok = self.with_mutate(|w, mc, _, m| match w.node(m, op.b).w.get().unwrap().upgrade(mc) {
+                let ok = self.with_mutate(|w, mc, _, m| match w.node(m, op.b).wk().unwrap().upgrade(mc) {
                     Some(g) => {
                         adopt(mc, op.a, w.node(m, op.c), op.d, g);
                         Ok(true)
@@ -691,7 +703,7 @@ impl World {
                 let t = self.sh.objs[op.b as usize].w.expect("weak");
                 let r = self.with_mutate(|w, mc, root, m| {
                     let set: DynamicRootSet = root.sets[op.c as usize].unwrap();
-                    let Some(g) = w.node(m, op.b).w.get().unwrap().upgrade(mc) else { return Ok(None) };
+                    let Some(g) = w.node(m, op.b).wk().unwrap().upgrade(mc) else { return Ok(None) };
                     let before = set.verif_slots().0;
                     let h = talloc::subject(|| set.stash::<Rootable![Node<'_>]>(mc, g));
                     let after = set.verif_slots().0;
@@ -931,7 +943,7 @@ impl World {
                 let mut seen = vec![false; this.sh.objs.len()];
                 for (id, o) in m.iter().enumerate() {
                     let Some(Obj::Node(g)) = o else { continue };
-                    let Some(wk) = g.w.get() else { continue };
+                    let Some(wk) = g.wk() else { continue };
                     let t = this.sh.objs[id].w.unwrap();
                     let tr = reach[t as usize];
                     let td = this.sh.objs[t as usize].dropped;
@@ -996,7 +1008,7 @@ impl World {
                     }
                 }
                 if op.k == K::FinResChild {
-                    let wk = this.node(&m, op.a).w.get().unwrap();
+                    let wk = this.node(&m, op.a).wk().unwrap();
                     let t = this.sh.objs[op.a as usize].w.unwrap();
                     if let Some(g) = wk.upgrade(fc) {
                         if let (Some(cid), Some(c)) = (this.sh.objs[t as usize].s[0], g.s[0].get()) {
@@ -1009,7 +1021,7 @@ impl World {
                 match op.k {
                     K::FinRes | K::FinResStore | K::PFin | K::FinGcRes => {
                         let holder = this.node(&m, op.a);
-                        let wk = holder.w.get().unwrap();
+                        let wk = holder.wk().unwrap();
                         let t = this.sh.objs[op.a as usize].w.unwrap();
                         let td = this.sh.objs[t as usize].dropped;
                         was_dead = wk.is_dead(fc);
